@@ -11,6 +11,11 @@ started at start-up that sit in a loop of ``task.wait_until(<kind>_trigger=...)`
 webhook id that decorators (and the other waiter) use too: such a listener unsubscribes itself while the
 message is still being fanned out to the others.  Filters may contain a sub-expression that suspends
 (``task.sleep(0)``), so that the evaluations for two messages of a burst overlap.
+Occurrences with a history: fired events and state changes carry a fresh context or one that has a parent itself;
+a second-hop function may be triggered by the events the first-hop runs fire (its occurrences carry a run's context).
+A function may carry a ``@state_trigger`` (with or without ``state_hold``) next to its message triggers, its
+entity being set true / false between the messages.  Event payloads may also use the names ``context``,
+``trigger_type`` and ``event_type`` for the additional key, or have a key that is not a string.
 
 Oracle: per decorator, runs == filter(stimuli) as a sequence (no loss, duplication or reordering),
 each run in its own task, kwargs == payload (+ decorator kwargs); everything a run emits carries a
@@ -37,7 +42,10 @@ RULE = (
     "optional / with ONLY response support in either call form, 0-2 start-up tasks looping in task.wait_until on "
     "event types / topics / webhook ids shared with decorators and with each other, timed sequence of <=20/30 "
     "stimuli with unique ids incl. bursts, stalls, cancellations, event payloads with an additional identifier-named "
-    "key); distinct = scenario digest; non-trivial = at least two stimuli delivered to one decorator while an "
+    "key - also one of context/trigger_type/event_type - or a key that is no string; events and state changes whose "
+    "context has a parent itself; optionally a second-hop function triggered by the events the runs fire; optionally "
+    "a @state_trigger with/without state_hold on a function next to its message triggers, its entity set true/false "
+    "between the messages); distinct = scenario digest; non-trivial = at least two stimuli delivered to one decorator while an "
     "earlier run of that function was still alive"
 )
 ASSUMPTIONS = [
@@ -52,9 +60,19 @@ ASSUMPTIONS = [
     "arrived: its last marker before the message is 'about to call wait_until', the loop went idle (clock jump) or "
     ">= 50 passes went by since, and no other qualifying message arrived in between; everything it is handed must "
     "still be a qualifying message, once, in order, with the message's arguments. Its filters never raise",
-    "additional event payload keys are ordinary identifiers that differ from n/kind/id, from the keys of kwargs= and "
-    "from trigger_type/event_type/context (what wins on such a clash is not decided by the property); in the half "
-    "of the runs with spec.steer set they come from a pool of three plain names and filters do not suspend",
+    "additional event payload keys are ordinary identifiers that differ from n/kind/id and from the keys of kwargs=; "
+    "in the half of the runs with spec.steer set they come from a pool of three plain names and filters do not "
+    "suspend. Event data may also have a key named context, trigger_type or event_type: which value the function "
+    "then sees under that name is not decided by the property (the documentation says trigger_type is 'event' and "
+    "event_type the type, the property says the data are passed on), so for exactly that key either value is "
+    "accepted and the keyword argument context is never compared; the run itself, its other arguments and the "
+    "parent of what it emits (the event's real context) are judged as always",
+    "event data with a key that is not a string cannot be keyword arguments: whether that message starts a run "
+    "(at most one) and with which arguments is don't-care for decorators; every other message is judged as always "
+    "(a task.wait_until listener returns a dict and is judged as always)",
+    "runs started by the @state_trigger of a function are another property's business (whether, when); only what "
+    "such a run emits is judged here: its parent must be the context of the state change the run reports as value=",
+    "the second-hop function is judged against the events observed on the bus (type out_ev, in bus order)",
     "the response-capable services are called in the combinations Home Assistant accepts (no return_response "
     "together with blocking=False, none for a service without responses); the returned response is not judged here",
 ]
@@ -67,7 +85,9 @@ REACH_PROBES = ["same_type_two_functions", "filter_rejected", "filter_raised", "
                 "call_response_only_implicit", "call_response_explicit", "call_via_service_call", "call_nonblocking",
                 "ctx_parent_checked_response_only", "waiter_shares_target_with_decorator", "two_waiters_same_target",
                 "waiter_delivery_required", "waiter_got", "waiter_missed_between_calls", "suspending_filter_burst",
-                "payload_extra_key", "payload_extra_key_delivered"]
+                "payload_extra_key", "payload_extra_key_delivered", "payload_reserved_key_delivered",
+                "payload_nonstring_key", "trigger_ctx_has_parent", "chain_run", "chain_ctx_checked",
+                "state_trigger_on_function", "state_run", "message_during_state_hold"]
 SHRINK_LISTS = [["ops"], ["spec", "funcs"], ["spec", "funcs", "*", "decs"], ["spec", "funcs", "*", "body"],
                 ["spec", "waiters"]]
 
@@ -78,6 +98,12 @@ KINDS = ["a", "b", "7"]
 # ``def f(**kw)``
 XKEYS_PLAIN = ["name", "value", "data"]
 XKEYS = XKEYS_PLAIN + ["func", "func_name", "self", "args", "kwargs", "ast_ctx", "task_unique", "hass_context", "cls"]
+# names the trigger itself uses for keyword arguments: event data may use them as well (see ASSUMPTIONS)
+XKEYS_RESERVED = ["context", "trigger_type", "event_type"]
+# keys of event data that are not strings (JSON scenario: kept beside the data as [key, value])
+NONSTR_KEYS = [5, 2.5]
+STATE_ENTITIES = ["sensor.c08_sv0", "sensor.c08_sv1"]
+CHAIN_EVENT = "out_ev"
 CALL_DEFAULT = {"svc": "none", "form": "direct", "rr": None, "blocking": None}
 SVC_NAME = {"none": "record", "opt": "record_opt", "only": "record_only"}
 WAIT_MIN_PASSES = 50
@@ -223,14 +249,27 @@ def gen(rng: random.Random, tier: str) -> dict:
         if rng.random() < 0.45:
             body.append(gen_call(rng))
         rng.shuffle(body)
-        funcs.append({"name": f"f{fi}", "decs": decs, "body": body})
+        func = {"name": f"f{fi}", "decs": decs, "body": body}
+        if rng.random() < 0.25:
+            # a state trigger on the same function (legacy: it shares the trigger task of the first message trigger)
+            func["state"] = {"entity": rng.choice(STATE_ENTITIES), "hold": rng.choice([None, 0.3, 1.0, 1.0, 2.0]),
+                             "pos": rng.choice(["top", "bottom"])}
+        funcs.append(func)
+    chain = None
+    if any(st[0] == "fire" for f in funcs for st in f["body"]) and rng.random() < 0.3:
+        # second hop: a function triggered by the events the runs above fire
+        cbody = [k for k in ("fire", "set", "call") if rng.random() < 0.6] or ["fire"]
+        chain = {"name": "h0", "filter": rng.choice([None, None, ["dec", "==", 0]]),
+                 "sleep": rng.choice([0, 0, 0.1, 0.6]), "body": cbody}
     waiters = gen_waiters(rng, funcs)
     ops = []
     sid = 0
     listeners = [d for f in funcs for d in f["decs"]] + waiters
     hooks = [d["target"] for d in listeners if d["kind"] == "webhook"]
     used_ev = [d["target"] for d in listeners if d["kind"] == "event"] or EVENT_TYPES
-    xkeys = XKEYS_PLAIN if steer else XKEYS
+    xkeys = XKEYS_PLAIN if steer else XKEYS + XKEYS_RESERVED
+    state_ents = sorted({f["state"]["entity"] for f in funcs if f.get("state")})
+    nset = 0
     for _ in range(rng.randint(3, TIERS[tier]["max_ops"])):
         op = gen_delay(rng, burst_p=0.45)
         roll = rng.random()
@@ -249,16 +288,27 @@ def gen(rng: random.Random, tier: str) -> dict:
             sid += 1
             topic = rng.choice(["t/a", "t/b", "t/q/x", "t/other"])
             op.update({"kind": "mqtt", "topic": topic, "payload": json.dumps(dict(data, id=sid), sort_keys=True)})
+        elif roll < 0.48 and state_ents:
+            nset += 1
+            op.update({"kind": "set_state", "e": rng.choice(state_ents), "k": nset,
+                       "s": f"on{nset}" if rng.random() < 0.7 else "off", "ctx_parent": rng.random() < 0.4})
         else:
             sid += 1
             etype = rng.choice(used_ev) if rng.random() < 0.75 else rng.choice(EVENT_TYPES + ["ev_unused"])
             op.update({"kind": "fire", "type": etype, "data": dict(data, id=sid)})
             if rng.random() < 0.08:
                 del op["data"]["kind"]  # filters naming a missing key raise
-            if rng.random() < 0.03:
+            if rng.random() < 0.05:
                 op["data"][rng.choice(xkeys)] = rng.choice(["v", 11])  # "arbitrary payloads": one more key
+            elif not steer and rng.random() < 0.015:
+                op["xnonstr"] = [rng.choice(NONSTR_KEYS), rng.choice(["v", 11])]  # ... or a key that is no string
+            if rng.random() < 0.4:
+                op["ctx_parent"] = True  # the event was caused by something: its context has a parent
         ops.append(op)
-    return {"cfg": cfg, "spec": {"funcs": funcs, "waiters": waiters, "steer": steer}, "ops": ops}
+    spec = {"funcs": funcs, "waiters": waiters, "steer": steer}
+    if chain is not None:
+        spec["chain"] = chain
+    return {"cfg": cfg, "spec": spec, "ops": ops}
 
 
 # ------------------------------------------------------------------ rendering
@@ -295,18 +345,64 @@ def _wait_src(waiter: dict) -> str:
     return f"task.wait_until({waiter['kind']}_trigger={arg})"
 
 
+def _state_dec_src(state: dict) -> str:
+    args = [repr(f"{state['entity']} != 'off'")]
+    if state.get("hold") is not None:
+        args.append(f"state_hold={state['hold']}")
+    args.append("kwargs={'dec': 's'}")
+    return f"@state_trigger({', '.join(args)})"
+
+
+def _chain_src(chain: dict) -> list:
+    """The second-hop function: triggered by the events the first-hop runs fire."""
+    name = chain["name"]
+    args = [repr(CHAIN_EVENT)]
+    if chain.get("filter") is not None:
+        args.append(repr(f"{chain['filter'][0]} {chain['filter'][1]} {chain['filter'][2]!r}"))
+    args.append("kwargs={'hop': 2}")
+    lines = [
+        f"@event_trigger({', '.join(args)})",
+        f"def {name}(**kw):",
+        "    key = [kw.get('src'), kw.get('rid'), kw.get('dec')]",
+        f"    sim.mark({name!r}, 'start', key, kw)",
+    ]
+    if chain.get("sleep"):
+        lines.append(f"    task.sleep({chain['sleep']})")
+    for kind in chain["body"]:
+        if kind == "fire":
+            lines.append(f"    event.fire('out2_ev', src={name!r}, via=key)")
+        elif kind == "set":
+            lines.append(f"    state.set('pyscript.out_{name}', 'x', via=key)")
+        elif kind == "call":
+            lines.append(f"    test.record(src={name!r}, via=key)")
+    lines += [f"    sim.mark({name!r}, 'end', key)", ""]
+    return lines
+
+
 def render(scn: dict) -> dict:
     lines = []
     for func in scn["spec"]["funcs"]:
         if not func["decs"]:
             continue
+        state = func.get("state")
+        if state and state.get("pos") == "top":
+            lines.append(_state_dec_src(state))
         for dec in func["decs"]:
             lines.append(_dec_src(dec))
+        if state and state.get("pos") != "top":
+            lines.append(_state_dec_src(state))
         name = func["name"]
         # the keyword arguments go to the marker as one dictionary: whatever names the payload uses, they are data
         lines += [
             f"def {name}(**kw):",
             "    rid = kw.get('id')",
+        ]
+        if state:
+            lines += [
+                "    if rid is None and 'var_name' in kw:",
+                "        rid = str(kw.get('value'))",
+            ]
+        lines += [
             "    if rid is None:",
             "        p = kw.get('payload_obj')",
             "        if p is None:",
@@ -328,6 +424,8 @@ def render(scn: dict) -> dict:
                 lines.append(f"    {_call_src(step, name)}")
         lines.append(f"    sim.mark({name!r}, 'end', rid, dec=kw['dec'])")
         lines.append("")
+    if scn["spec"].get("chain"):
+        lines += _chain_src(scn["spec"]["chain"])
     for waiter in scn["spec"].get("waiters") or []:
         name = waiter["name"]
         lines += [
@@ -441,6 +539,11 @@ def run(scn: dict) -> dict:
     spec = scn["spec"]
     w = World(scn["cfg"], render(scn))
     max_sleep = max([st[1] for f in spec["funcs"] for st in f["body"] if st[0] == "sleep"] + [0])
+    # a hold that is pending after the last op, then the run, then the second hop
+    max_sleep += max([(f.get("state") or {}).get("hold") or 0 for f in spec["funcs"]] + [0])
+    max_sleep += (spec.get("chain") or {}).get("sleep") or 0
+    set_ctx: dict = {}
+    set_log: list = []
     cancelled: set = set()
     stim_ctx: dict = {}
     stim_at: dict = {}
@@ -485,10 +588,19 @@ def run(scn: dict) -> dict:
             here = {"nmarks": len(w.marks), "iter": w.loop.iterations, "jumps": w.loop.jumps, "burst": burst,
                     "t": w.vts()}
             if op["kind"] == "fire":
-                ctx = Context()
+                ctx = Context(parent_id=Context().id) if op.get("ctx_parent") else Context()
                 stim_ctx[op["data"]["id"]] = ctx
                 stim_at[op["data"]["id"]] = here
-                w.fire(op["type"], op["data"], context=ctx)
+                data = op["data"]
+                if op.get("xnonstr"):
+                    data = dict(data)
+                    data[op["xnonstr"][0]] = op["xnonstr"][1]
+                w.fire(op["type"], data, context=ctx)
+            elif op["kind"] == "set_state":
+                ctx = Context(parent_id=Context().id) if op.get("ctx_parent") else Context()
+                set_ctx[op["s"]] = ctx
+                set_log.append({"t": w.vts(), "e": op["e"], "s": op["s"]})
+                w.set_state(op["e"], op["s"], {}, context=ctx)
             elif op["kind"] == "cancel_run":
                 for mark in w.marks:
                     if mark["args"][1:3] == ["start", op["sid"]] and not mark["task_obj"].done():
@@ -508,7 +620,7 @@ def run(scn: dict) -> dict:
         await w.settle(0.5)
 
     w.run(driver)
-    violations, nontrivial, extra = oracle(w, scn, cancelled, stim_ctx, stim_at)
+    violations, nontrivial, extra = oracle(w, scn, cancelled, stim_ctx, stim_at, set_ctx, set_log)
     return base_result(w, violations, nontrivial, extra)
 
 
@@ -522,11 +634,27 @@ def _matches(listener: dict, st: dict) -> bool:
 
 def _exp_args(kind: str, st: dict) -> dict:
     if kind == "event":
-        return {"trigger_type": "event", "event_type": st["target"], **st["data"]}
+        args = {"trigger_type": "event", "event_type": st["target"], **st["data"]}
+        if st.get("nonstr"):
+            args[st["nonstr"][0]] = st["nonstr"][1]
+        return args
     if kind == "mqtt":
         return {"trigger_type": "mqtt", "topic": st["target"], "payload": st["payload"], "qos": 0,
                 "retain": False, "payload_obj": st["data"]}
     return {"trigger_type": "webhook", "webhook_id": st["target"], "payload": st["data"]}
+
+
+def _kw_differ(w: World, got_norm: dict, exp_kw: dict, st: dict) -> bool:
+    """Do the reported keyword arguments differ from the expected ones?  ``context`` is not compared; where the
+    event data itself has a key ``trigger_type`` / ``event_type`` either value is accepted for it (ASSUMPTIONS)."""
+    got = {k: v for k, v in got_norm.items() if k != "context"}
+    exp = w.norm({k: v for k, v in exp_kw.items() if k != "context"})
+    if st["kind"] == "event":
+        for key, documented in (("trigger_type", "event"), ("event_type", st["target"])):
+            if key in st["data"] and key in got and got[key] in (w.norm(st["data"][key]), documented):
+                got.pop(key)
+                exp.pop(key, None)
+    return got != exp
 
 
 def _xkey(st: dict):
@@ -537,14 +665,19 @@ def _xkey(st: dict):
     return more[0] if more else None
 
 
-def oracle(w: World, scn: dict, cancelled: set, stim_ctx: dict, stim_at: dict | None = None):
+def oracle(w: World, scn: dict, cancelled: set, stim_ctx: dict, stim_at: dict | None = None,
+           set_ctx: dict | None = None, set_log: list | None = None):
     sub = "legacy" if w.cfg["legacy"] else "new"
     stim_at = stim_at or {}
+    set_ctx = set_ctx or {}
+    chain = scn["spec"].get("chain")
+    chain_marks: list = []
     violations = []
     stimuli = []  # in order
     for op in scn["ops"]:
         if op["kind"] == "fire":
-            stimuli.append({"kind": "event", "target": op["type"], "data": op["data"], "sid": op["data"]["id"]})
+            stimuli.append({"kind": "event", "target": op["type"], "data": op["data"], "sid": op["data"]["id"],
+                            "nonstr": op.get("xnonstr")})
         elif op["kind"] == "mqtt":
             data = json.loads(op["payload"])
             stimuli.append({"kind": "mqtt", "target": op["topic"], "data": data, "sid": data["id"],
@@ -561,6 +694,9 @@ def oracle(w: World, scn: dict, cancelled: set, stim_ctx: dict, stim_at: dict | 
         fname, what, rid = mark["args"][0], mark["args"][1], mark["args"][2]
         if fname in waiter_names:
             waiter_marks.setdefault(fname, []).append(mark)
+            continue
+        if chain and fname == chain["name"]:
+            chain_marks.append(mark)
             continue
         di = _mark_dec(mark)
         if what == "start":
@@ -580,6 +716,11 @@ def oracle(w: World, scn: dict, cancelled: set, stim_ctx: dict, stim_at: dict | 
                                              for d in func["decs"]):
                 func_xkeys.append((st["sid"], _xkey(st)))
         func_ran = {rid for (fname, _di), lst in starts.items() if fname == func["name"] for rid, _ in lst}
+        # messages whose data cannot be keyword arguments (a key that is no string), handed to this function
+        func_nonstr = [st["sid"] for st in stimuli
+                       if st.get("nonstr") and any(_matches(d, st) and (d["filter"] is None
+                                                                        or filter_eval(d["filter"], st["data"])[0])
+                                                   for d in func["decs"])]
         for dec in func["decs"]:
             di = dec["kwargs"]["dec"]
             targets.setdefault((dec["kind"], dec["target"]), set()).add(func["name"])
@@ -600,12 +741,26 @@ def oracle(w: World, scn: dict, cancelled: set, stim_ctx: dict, stim_at: dict | 
             if _suspends(dec["filter"]) and any(stim_at.get(st["sid"], {}).get("burst", 1) > 1 for st in matching):
                 w.probe("suspending_filter_burst")
             got = starts.get((func["name"], di), [])
-            got_ids = [rid for rid, _ in got]
-            exp_ids = [st["sid"] for st in expected]
+            got_all = [rid for rid, _ in got]
+            # a message that cannot be handed over as keyword arguments may or may not start a run (ASSUMPTIONS)
+            optional = {st["sid"] for st in expected if st.get("nonstr")}
+            for _ in optional:
+                w.probe("payload_nonstring_key")
+            got_ids = [rid for rid in got_all if rid not in optional or got_all.count(rid) > 1]
+            exp_ids = [st["sid"] for st in expected if st["sid"] not in optional or got_all.count(st["sid"]) > 1]
             desc = f"{func['name']} dec {di} [{_dec_src(dec)}]"
             sig = {"subsystem": sub, "trigger": dec["kind"]}
             if _suspends(dec["filter"]):
                 sig["filter"] = "suspends"
+            if func.get("state"):
+                sig["with_state_trigger"] = True
+                w.probe("state_trigger_on_function")
+                hold = func["state"].get("hold") or 0
+                for st in expected:
+                    t_st = stim_at.get(st["sid"], {}).get("t")
+                    if t_st is not None and any(rec["e"] == func["state"]["entity"] and rec["s"] != "off"
+                                                and rec["t"] < t_st < rec["t"] + hold for rec in set_log or []):
+                        w.probe("message_during_state_hold")
             for st in expected:
                 if _xkey(st) is not None:
                     w.probe("payload_extra_key")
@@ -621,12 +776,21 @@ def oracle(w: World, scn: dict, cancelled: set, stim_ctx: dict, stim_at: dict | 
                                        "detail": f"{desc}: stimuli {dups} ran more than once; got {got_ids} expected {exp_ids}"})
                 if missing:
                     # the payload shape is part of the signature: a message with one more key / a message after one
-                    with_key = [i for i in missing if _xkey(by_sid[i]) is not None]
-                    plain = [i for i in missing if _xkey(by_sid[i]) is None]
+                    # its own class: the function was handed a message with a key that is no string before
+                    after_ns = [i for i in missing if any(s_id < i for s_id in func_nonstr)]
+                    with_key = [i for i in missing if _xkey(by_sid[i]) is not None and i not in after_ns]
+                    plain = [i for i in missing if _xkey(by_sid[i]) is None and i not in after_ns]
 
                     def t_of(ids):
                         return stim_at.get(ids[0], {}).get("t", t_first)
 
+                    if after_ns:
+                        violations.append({"class": "C08.lost_after_nonstring_key",
+                                           "sig": {"subsystem": sub, "trigger": dec["kind"]}, "t": t_of(after_ns),
+                                           "detail": f"{desc}: stimuli {after_ns} never ran; got {got_ids} expected "
+                                                     f"{exp_ids} (the function was handed message(s) "
+                                                     f"{[i for i in func_nonstr if i < after_ns[0]]} whose data has a "
+                                                     f"key that is no string before)"})
                     if with_key:
                         keys = [_xkey(by_sid[i]) for i in with_key]
                         violations.append({"class": "C08.lost_payload_key", "sig": {**sig, "payload_key": keys[0]},
@@ -664,7 +828,9 @@ def oracle(w: World, scn: dict, cancelled: set, stim_ctx: dict, stim_at: dict | 
                 exp_kw = _exp_args(dec["kind"], st)
                 exp_kw.update(dec["kwargs"])
                 got_kw = {k: v for k, v in _mark_kw(mark)[0].items() if k != "context"}
-                if got_kw != w.norm(exp_kw):
+                if any(k in st["data"] for k in XKEYS_RESERVED) and dec["kind"] == "event":
+                    w.probe("payload_reserved_key_delivered")
+                if not st.get("nonstr") and _kw_differ(w, got_kw, exp_kw, st):
                     violations.append({"class": "C08.wrong_kwargs", "sig": sig, "t": mark["t"],
                                        "detail": f"{desc}: stimulus {rid} kwargs {got_kw} != {w.norm(exp_kw)}"})
                 if mark["vt"] < alive_until:
@@ -685,14 +851,34 @@ def oracle(w: World, scn: dict, cancelled: set, stim_ctx: dict, stim_at: dict | 
                                                      f"{execs.get((func['name'], rid, mark['task']))}"})
                 # ---- contexts of what the run emitted
                 if dec["kind"] == "event" and end:
-                    trig_ctx = stim_ctx[rid].id
-                    _check_outputs(w, func, dec, rid, trig_ctx, violations, sig, desc)
+                    csig = sig
+                    if "context" in st["data"]:
+                        # its own class, one signature per subsystem whatever the run emitted
+                        csig = {"subsystem": sub, "trigger": "event", "payload_key": "context"}
+                    if stim_ctx[rid].parent_id is not None:
+                        w.probe("trigger_ctx_has_parent")
+                    _check_outputs(w, func, dec, rid, stim_ctx[rid].id, violations, csig, desc)
                 elif end:
                     _check_outputs(w, func, dec, rid, None, violations, sig, desc)
+        # ---- the runs its state trigger started: whether and when is another property's business, but what such a
+        # run emits has to name the state change it reports (kwargs value=...) as the parent
+        if func.get("state"):
+            sdec = {"kind": "state", "kwargs": {"dec": "s"}}
+            ssig = {"subsystem": sub, "trigger": "state"}
+            s_runs = starts.get((func["name"], "s"), [])
+            for rid, mark in s_runs:
+                w.probe("state_run")
+                if rid in set_ctx and ends.get((func["name"], "s", rid)) and [r for r, _ in s_runs].count(rid) == 1:
+                    if set_ctx[rid].parent_id is not None:
+                        w.probe("trigger_ctx_has_parent")
+                    _check_outputs(w, func, sdec, rid, set_ctx[rid].id, violations, ssig,
+                                   f"{func['name']} [{_state_dec_src(func['state'])}]")
     for (kind, _target), names in targets.items():
         if len(names) > 1:
             w.probe("same_type_two_functions")
     n_got = _check_waiters(w, scn, stimuli, stim_at, waiter_marks, targets, violations, sub)
+    if chain:
+        _check_chain(w, chain, chain_marks, violations, sub)
     violations.sort(key=lambda v: v.get("t", 0.0))
     return violations, n_overlap >= 2, {"stimuli": len(stimuli), "runs": sum(len(v) for v in starts.values()),
                                         "waiter_returns": n_got}
@@ -755,7 +941,7 @@ def _check_waiters(w: World, scn: dict, stimuli: list, stim_at: dict, waiter_mar
                 continue
             st = qualifying[q_ids.index(rid)]
             got_kw = {k: v for k, v in norm_kw.items() if k != "context"}
-            if got_kw != w.norm(_exp_args(waiter["kind"], st)):
+            if _kw_differ(w, got_kw, _exp_args(waiter["kind"], st), st):
                 violations.append({"class": "C08.wrong_kwargs", "sig": sig, "t": mark["t"],
                                    "detail": f"{desc}: message {rid} returned as {got_kw} != "
                                              f"{w.norm(_exp_args(waiter['kind'], st))}"})
@@ -784,6 +970,102 @@ def _check_waiters(w: World, scn: dict, stimuli: list, stim_at: dict, waiter_mar
     return n_got
 
 
+def _check_chain(w: World, chain: dict, marks: list, violations: list, sub: str) -> None:
+    """The second-hop function: every event the first-hop runs fired (as seen on the bus, in bus order) that passes
+    its filter starts exactly one run with the event's data, and what that run emits names that event's context
+    (a run's context: it has a parent itself when the first hop was started by an event) as parent."""
+    name = chain["name"]
+    sig = {"subsystem": sub, "trigger": "event", "hop": 2}
+    flt = chain.get("filter")
+    desc = f"{name} [second hop: @event_trigger({CHAIN_EVENT!r}" + (f", {flt[0]} {flt[1]} {flt[2]!r})]" if flt else ")]")
+
+    def key_of(data) -> tuple:
+        return (data.get("src"), data.get("rid"), data.get("dec"))
+
+    occs = [e for e in w.bus_events if e["type"] == CHAIN_EVENT
+            and (flt is None or e["data"].get(flt[0]) == flt[2])]
+    exp_keys = [key_of(e["data"]) for e in occs]
+    start_marks = [m for m in marks if m["args"][1] == "start"]
+    got_keys = [tuple(m["args"][2]) for m in start_marks]
+    ends: dict = {}
+    for m in marks:
+        if m["args"][1] == "end":
+            ends.setdefault(tuple(m["args"][2]), []).append(m)
+    t_first = start_marks[0]["t"] if start_marks else 0.0
+    if got_keys != exp_keys:
+        missing = [list(k) for k in exp_keys if k not in got_keys]
+        extra = [list(k) for k in got_keys if k not in exp_keys]
+        dups = [list(k) for k in dict.fromkeys(got_keys) if got_keys.count(k) > exp_keys.count(k) and k in exp_keys]
+        for cls, lst, txt in (("C08.duplicated", dups, "ran more than once"), ("C08.lost", missing, "never ran"),
+                              ("C08.spurious", extra, "ran but no such event passed the filter")):
+            if lst:
+                violations.append({"class": cls, "sig": sig, "t": t_first,
+                                   "detail": f"{desc}: occurrences {lst} {txt}; got {[list(k) for k in got_keys]} "
+                                             f"expected {[list(k) for k in exp_keys]}"})
+        if not (missing or extra or dups):
+            violations.append({"class": "C08.reordered", "sig": sig, "t": t_first,
+                               "detail": f"{desc}: got {[list(k) for k in got_keys]} expected "
+                                         f"{[list(k) for k in exp_keys]}"})
+    seen_tasks = set()
+    for mark in start_marks:
+        key = tuple(mark["args"][2])
+        if exp_keys.count(key) != 1 or got_keys.count(key) != 1:
+            continue
+        occ = occs[exp_keys.index(key)]
+        w.probe("chain_run")
+        if mark["task"] in seen_tasks or mark["task"] is None:
+            violations.append({"class": "C08.shared_task", "sig": sig, "t": mark["t"],
+                               "detail": f"{desc}: run for occurrence {list(key)} is not in its own task"})
+        seen_tasks.add(mark["task"])
+        exp_kw = w.norm({"trigger_type": "event", "event_type": CHAIN_EVENT, **dict(occ["data"]), "hop": 2})
+        got_kw = {k: v for k, v in _mark_kw(mark)[0].items() if k != "context"}
+        if got_kw != exp_kw:
+            violations.append({"class": "C08.wrong_kwargs", "sig": sig, "t": mark["t"],
+                               "detail": f"{desc}: occurrence {list(key)} kwargs {got_kw} != {exp_kw}"})
+        if len(ends.get(key, [])) != 1:
+            violations.append({"class": "C08.run_not_finished", "sig": sig, "t": mark["t"],
+                               "detail": f"{desc}: run for occurrence {list(key)} reached its end "
+                                         f"{len(ends.get(key, []))} times"})
+            continue
+
+        def check_ctx(what, ctx, t):
+            w.probe("chain_ctx_checked")
+            if occ["ctx"].parent_id is not None:
+                w.probe("trigger_ctx_has_parent")
+            if ctx is None or ctx.parent_id != occ["ctx"].id:
+                violations.append({"class": "C08.context_parent", "sig": {**sig, "output": what}, "t": t,
+                                   "detail": f"{desc}: {what} of the run for occurrence {list(key)} has context "
+                                             f"parent {getattr(ctx, 'parent_id', None)!r}, expected the context of "
+                                             f"the event that started it"
+                                             + (" (got that event's own parent)"
+                                                if ctx is not None and ctx.parent_id == occ["ctx"].parent_id else "")})
+
+        via = list(key)
+        if "fire" in chain["body"]:
+            outs = [e for e in w.bus_events if e["type"] == "out2_ev" and e["data"].get("src") == name
+                    and list(e["data"].get("via") or []) == via]
+            if len(outs) != 1 or set(outs[0]["data"]) != {"src", "via"}:
+                violations.append({"class": "C08.event_fire", "sig": sig, "t": outs[0]["t"] if outs else 0.0,
+                                   "detail": f"{desc}: event.fire for occurrence {via} produced "
+                                             f"{[dict(o['data']) for o in outs]}"})
+            else:
+                check_ctx("event.fire", outs[0]["ctx"], outs[0]["t"])
+        if "set" in chain["body"]:
+            outs = [e for e in w.bus_events if e["type"] == "state_changed"
+                    and e["data"]["entity_id"] == f"pyscript.out_{name}" and e["data"].get("new_state") is not None
+                    and list(e["data"]["new_state"].attributes.get("via") or []) == via]
+            if outs:
+                check_ctx("state.set", outs[0]["ctx"], outs[0]["t"])
+        if "call" in chain["body"]:
+            recs = [r for r in w.natives.get("records", []) if r["data"].get("src") == name
+                    and list(r["data"].get("via") or []) == via]
+            if len(recs) != 1 or set(recs[0]["data"]) != {"src", "via"}:
+                violations.append({"class": "C08.service_call", "sig": sig, "t": 0.0,
+                                   "detail": f"{desc}: service call for occurrence {via} delivered {len(recs)} times"})
+            else:
+                check_ctx("service call", recs[0]["ctx"], recs[0]["vt"] - w.clock.vt0)
+
+
 def _check_outputs(w: World, func: dict, dec: dict, rid: int, trig_ctx, violations: list, sig: dict, desc: str):
     name = func["name"]
     di = dec["kwargs"]["dec"]
@@ -794,7 +1076,9 @@ def _check_outputs(w: World, func: dict, dec: dict, rid: int, trig_ctx, violatio
             return False
         w.probe("ctx_parent_checked")
         if ctx is None or ctx.parent_id != trig_ctx:
-            violations.append({"class": "C08.context_parent", "sig": {**sig, "output": what}, "t": t,
+            by_key = sig.get("payload_key") == "context"
+            violations.append({"class": "C08.context_parent_payload_key" if by_key else "C08.context_parent",
+                               "sig": sig if by_key else {**sig, "output": what}, "t": t,
                                "detail": f"{desc}: {what} of the run for stimulus {rid} has context parent "
                                          f"{getattr(ctx, 'parent_id', None)!r}, expected the triggering event's context"})
         return True
